@@ -20,6 +20,7 @@ type mcase struct {
 		Bag    []vlib.AAbs `json:"bag"`
 		Totals []int64     `json:"totals"`
 		Hdr    vlib.AHdr   `json:"hdr"`
+		N      int         `json:"nsamples"`
 	} `json:"exp"`
 }
 
@@ -102,6 +103,11 @@ func checkCase(raw json.RawMessage, c *mcase, base *vlib.Conc, idx int) {
 			obs := vlib.BagOf(vlib.Project(out))
 			if d := exp.Diff(obs); d != "" {
 				run.Violate("conservation", bagSig(exp, obs), fmt.Sprintf("perm %v: %s", perm, d), raw, base)
+			}
+			// as many samples as the specification's identity (Merge.tla SampleKey: mapping sizes by page count, ...)
+			// tells apart: fewer = conflated, more = left unmerged
+			if len(out.Sample) != c.Exp.N {
+				run.Violate("conservation", fmt.Sprintf("sample-count:%+d", len(out.Sample)-c.Exp.N), fmt.Sprintf("perm %v: the result has %d samples, the identity rules give %d", perm, len(out.Sample), c.Exp.N), raw, base)
 			}
 			// nothing identical in every attribute may be left unmerged; no zero sample may remain
 			seen := map[string]bool{}
